@@ -8,6 +8,7 @@
 package c09
 
 import (
+	"context"
 	"fmt"
 	"io"
 	"net/http"
@@ -61,9 +62,18 @@ func okHandler(c *counter, yield bool) http.Handler {
 	})
 }
 
+// plainRequest builds what httptest.NewRequest("GET", target, nil) builds, without parsing: no bufio / textproto
+// sync.Pool is touched inside a thread (pools are synchronisation the race detector sees; an item handed from one
+// thread to the other is an accidental happens-before edge that can hide a race of the code under test).
+func plainRequest(target string) *http.Request {
+	u := mustURL(target)
+	return (&http.Request{Method: "GET", URL: u, Proto: "HTTP/1.1", ProtoMajor: 1, ProtoMinor: 1, Header: http.Header{}, Body: http.NoBody,
+		Host: u.Host, RemoteAddr: "192.0.2.1:1234", RequestURI: target}).WithContext(context.Background())
+}
+
 func serve(h http.Handler) int {
 	rec := httptest.NewRecorder()
-	req := httptest.NewRequest("GET", "http://client/", nil)
+	req := plainRequest("http://client/")
 	req.Header.Set("Source", "a")
 	req.RemoteAddr = "1.2.3.4:5"
 	h.ServeHTTP(rec, req)
@@ -127,7 +137,7 @@ func roundRobinSticky() *sched.Instance {
 	rr.Servers()
 	sticky := func() int {
 		rec := httptest.NewRecorder()
-		req := httptest.NewRequest("GET", "http://client/", nil)
+		req := plainRequest("http://client/")
 		req.AddCookie(&http.Cookie{Name: "sid", Value: "http://b"})
 		rr.ServeHTTP(rec, req)
 		return rec.Code
@@ -431,7 +441,7 @@ func tokenLimiter() *sched.Instance {
 	req := func(src string) func() {
 		return func() {
 			rec := httptest.NewRecorder()
-			r := httptest.NewRequest("GET", "http://x/", nil)
+			r := plainRequest("http://x/")
 			r.Header.Set("Source", src)
 			tl.ServeHTTP(rec, r)
 		}
@@ -459,7 +469,7 @@ func tokenLimiterFirstContact() *sched.Instance {
 	req := func(i int) func() {
 		return func() {
 			rec := httptest.NewRecorder()
-			r := httptest.NewRequest("GET", "http://x/", nil)
+			r := plainRequest("http://x/")
 			r.Header.Set("Source", "a")
 			tl.ServeHTTP(rec, r)
 			codes[i] = rec.Code
@@ -616,23 +626,30 @@ func forwarder() *sched.Instance {
 	f := forward.New(true)
 	f.Transport = stubTransport{}
 	var got [2]string
+	// requests and recorders are built here, outside the threads: the standard library's sync.Pools (fmt, textproto)
+	// are synchronisation the race detector sees - a thread that formats a string before it calls the middleware can
+	// pick up an item the other thread released and thereby an accidental happens-before edge that hides a race
+	var recs [2]*httptest.ResponseRecorder
+	var reqs [2]*http.Request
+	for i := range reqs {
+		recs[i] = httptest.NewRecorder()
+		reqs[i] = httptest.NewRequest("GET", "http://front.example/p?q=1", nil)
+		reqs[i].RemoteAddr = fmt.Sprintf("10.0.0.%d:1234", i+1)
+		reqs[i].Header.Set("Connection", "X-Real-Ip, X-Forwarded-Host")
+		reqs[i].URL = mustURL("http://backend.internal/x")
+	}
 	do := func(i int) func() {
 		return func() {
-			rec := httptest.NewRecorder()
-			req := httptest.NewRequest("GET", "http://front.example/p?q=1", nil)
-			req.RemoteAddr = fmt.Sprintf("10.0.0.%d:1234", i+1)
-			req.Header.Set("Connection", "X-Real-Ip, X-Forwarded-Host")
-			req.URL = mustURL("http://backend.internal/x")
-			f.ServeHTTP(rec, req)
-			got[i] = fmt.Sprintf("%d/%s", rec.Code, rec.Header().Get("X-Saw-Real-Ip"))
+			f.ServeHTTP(recs[i], reqs[i])
+			got[i] = recs[i].Header().Get("X-Saw-Real-Ip")
 		}
 	}
 	inst := &sched.Instance{Names: []string{"req1", "req2"}}
 	inst.Bodies = []func(){do(0), do(1)}
 	inst.Check = func(*vrt.Exec) []vrt.Failure {
 		for i, g := range got {
-			if want := fmt.Sprintf("200/10.0.0.%d", i+1); g != want {
-				return []vrt.Failure{fail("cross-talk:forwarder", "request %d through the forwarder: status/X-Real-Ip seen by the backend = %s, want %s", i+1, g, want)}
+			if want := fmt.Sprintf("200/10.0.0.%d", i+1); fmt.Sprintf("%d/%s", recs[i].Code, g) != want {
+				return []vrt.Failure{fail("cross-talk:forwarder", "request %d through the forwarder: status/X-Real-Ip seen by the backend = %d/%s, want %s", i+1, recs[i].Code, g, want)}
 			}
 		}
 		return nil
